@@ -395,9 +395,11 @@ pub fn execute(t: &Trace, stats: &mut Stats, record: bool) -> Outcome {
             }
             Ok(Err(e)) => {
                 let k = e.kind();
-                let zero_expected = zeroes > 0 && k == io::ErrorKind::WriteZero;
-                if !raised.contains(&k) && !zero_expected {
-                    violation = Some(viol("error-kind", format!("{what}: the inner writer raised {raised:?} (zero results: {zeroes}) but the caller saw {k:?}")));
+                // the property does not say which error a failed coloured write reports, only that
+                // a healthy writer must not see one: an Err is accepted whenever the inner writer
+                // really failed (or accepted nothing) during this call
+                if raised.is_empty() && zeroes == 0 {
+                    violation = Some(viol("spurious-error", format!("{what}: the inner writer neither failed nor refused data, yet the call returned {k:?}")));
                     break;
                 }
                 // what was written must be a prefix of the full framing (real code, fault-free)
